@@ -41,6 +41,26 @@ def bond_step(ck, prog, denom_case):
     if denom_case == 'ok': ck.require(n >= 1, 'bond: no Ok path')
 
 
+def bond_extra_coins(ck, prog):
+    """more than one coin attached (the declared one, exact, plus another coin in either order): every attached coin ends up in the contract's
+    balance but only the declared one is ledgered, so the message must be refused."""
+    for order in (0, 1):
+        for extra in (DENOMS[1], 'uatom'):
+            def body(it, order=order, extra=extra):
+                c = it.ctx
+                setup_lair(it, nrec=1)
+                A = c.sym('amount', 128, lo=1); X = c.sym('extra_amount', 128, lo=1)
+                c.assume(A < 2**127); c.assume(X < 2**127)
+                coins = [COIN(DENOMS[0], A), COIN(extra, X)]
+                if order: coins.reverse()
+                it.world.bank = [(a, d, x + (A if same(d, DENOMS[0]) else X if same(d, extra) else 0)) for a, d, x in it.world.bank]
+                return enter(it, 'whale_lair', 'execute', mk_env(it, c.sym('now', 64)), mk_info('alice', coins), it.mkv(WX, 'Bond', asset=nasset(it, DENOMS[0], A)))
+            tag = 'bond.extra_coin.%s.%d' % (extra, order)
+            for p in ck.explore(prog, body, tag):
+                ck.sample(dict(entry='whale_lair.execute(bond) with two coins attached', extra=extra, order=order, outcome=p.short()))
+                ck.oblige('C08.bond.single_coin.%s.%d' % (extra, order), p, p.ok, 'a bond message carrying any coin besides the declared one is refused (the extra coin would be held but ledgered nowhere)')
+
+
 def unbond_step(ck, prog, nrec):
     def body(it):
         c = it.ctx
@@ -116,6 +136,7 @@ def main():
     ck = Check('C08')
     prog = ck.program('whale_lair', 'white_whale_std')
     for case in ('ok', 'other', 'mismatch'): bond_step(ck, prog, case)
+    bond_extra_coins(ck, prog)
     for nrec in ((0, 1, 2) if ck.tier == 'quick' else (0, 1, 2, 3)):
         unbond_step(ck, prog, nrec)
         if nrec: withdraw_step(ck, prog, nrec)
